@@ -304,6 +304,48 @@ func (cl *c18Cluster) state() string {
 	return fmt.Sprintf("ctl{ro=%v rw=%d cp=%s replicas=%v backends=%v writers=%d readers=%d} %s", v.ReadOnly, v.RWReplicaCount, norm(v.Checkpoint), reps, bes, v.NWriters, v.NReaders, strings.Join(nodes, " "))
 }
 
+var c18Invariants []string
+
+// invariants are the clauses of C18 that hold at every quiescent point: no address twice, not more data replicas than
+// the replication factor, at most one replica rebuilding (WO), reported RW count = number of RW entries, the replica
+// list and the backends that get I/O agree.
+func (cl *c18Cluster) invariants() []string {
+	v := cl.c.VerifView()
+	var out []string
+	seen := map[string]bool{}
+	wo, rw := 0, 0
+	for _, r := range v.Replicas {
+		if seen[r.Address] {
+			out = append(out, "address "+r.Address+" appears twice in the replica list")
+		}
+		seen[r.Address] = true
+		switch r.Mode {
+		case types.WO:
+			wo++
+		case types.RW:
+			rw++
+		}
+	}
+	if len(v.Replicas) > 3 {
+		out = append(out, fmt.Sprintf("%d data replicas with replication factor 3", len(v.Replicas)))
+	}
+	if wo > 1 {
+		out = append(out, fmt.Sprintf("%d replicas are WO (rebuilding) at the same time", wo))
+	}
+	if rw != v.RWReplicaCount {
+		out = append(out, fmt.Sprintf("RWReplicaCount=%d but %d replicas are listed RW", v.RWReplicaCount, rw))
+	}
+	if len(v.Backends) != len(v.Replicas) {
+		out = append(out, fmt.Sprintf("%d replicas listed but %d backends", len(v.Replicas), len(v.Backends)))
+	}
+	for _, b := range v.Backends {
+		if !seen[b.Address] {
+			out = append(out, "backend "+b.Address+" is not in the replica list")
+		}
+	}
+	return out
+}
+
 // c18Run performs one execution.  order == nil: the ops run concurrently (explored).  order != nil: a sequential
 // reference — the events of order are run one after the other, each to quiescence; event "k" = op k, "k+" = the
 // second half of AddReplica op k.
@@ -354,6 +396,9 @@ func c18Run(cfg *C18Cfg, ch vs.Chooser, trace bool, order []string) (string, *vs
 			}
 		}
 		outcome = strings.Join(results, " ; ") + " || " + cl.state()
+		if order == nil {
+			c18Invariants = cl.invariants()
+		}
 		if len(blocked) > 0 {
 			outcome += " || BLOCKED " + strings.Join(blocked, ",")
 		}
@@ -432,6 +477,11 @@ func runC18(cfg *C18Cfg, ch vs.Chooser, trace bool) (*Outcome, *vs.Result) {
 	out := &Outcome{Obs: o}
 	if res.Fatal != "" || len(res.Panics) > 0 || res.HorizonHit {
 		return out, res
+	}
+	for _, iv := range c18Invariants {
+		if iv != "" {
+			out.Violations = append(out.Violations, Viol{Oracle: "membership-invariant", Sig: "membership-invariant:" + cfg.Init + ":" + strings.Join(cfg.Ops, "||"), Detail: iv + "\n final: " + o})
+		}
 	}
 	if _, ok := allowed[o]; !ok {
 		var al []string
